@@ -58,6 +58,7 @@ theorem C03_concurrent (cfg : Cfg) (hm : cfg.mode = .current) (s : St) (f : Fiel
   | eff id e => simp at hsome
   | ret id ok => simp at hsome
   | trans id a b => simp at hsome
+  | cancelled id => simp at hsome
   | event id li a b =>
     simp only [Option.some.injEq] at hsome
     subst hsome
@@ -80,6 +81,7 @@ theorem C03_transitions_walk (cfg : Cfg) (hm : cfg.mode = .current) (s : St) (f 
     | eff id e => simp [Item.change] at hsome
     | ret id ok => simp [Item.change] at hsome
     | event id li a b => simp [Item.change] at hsome
+    | cancelled id => simp [Item.change] at hsome
     | trans id a b =>
       simp only [Item.change, Option.some.injEq] at hsome
       subst hsome
@@ -93,9 +95,17 @@ an *earlier* listener (`p.pos < li`) of the newest change, when listener `li` ha
 that newest change `(p.old, current state)` (it is next in line). In particular, whenever the lock is
 free all listeners have been given the same sequence. (`Transfer.transition` reads `self.state` again
 for every listener — model.py:236; the pair is right because the lock is held until the last listener
-has returned.) -/
+has returned.)
+
+The op lists include `cancelCaller`. The one thing that makes the statement false is a caller that is
+cancelled while it is suspended inside a listener with other listeners still to come: those are then never
+told that change (`XState.cuts` counts exactly these events; `C03_cut_listener_counterexample`). Hence the
+hypothesis `cuts = 0` — which holds of every op list without `cancelCaller` (`C03_cuts_only_by_cancel`), so
+this is the round-3 theorem over a larger alphabet — and, with no hypothesis at all,
+`C03_listener_told_subsequence` and `C03_first_listener_told_everything`. -/
 theorem C03_listeners_told_the_transitions (cfg : Cfg) (hm : cfg.mode = .current) (s : St)
-    (f : Fields) (ops : List XOp) (li : Nat) (hli : li < cfg.listeners.length) :
+    (f : Fields) (ops : List XOp) (li : Nat) (hli : li < cfg.listeners.length)
+    (hc : (run cfg (init s f) ops).cuts = 0) :
     (told li (run cfg (init s f) ops) = transitions (run cfg (init s f) ops) ∨
       ∃ p, (run cfg (init s f) ops).holder = some p ∧ p.notified = true ∧ p.pos < li ∧
         told li (run cfg (init s f) ops) ++ [(p.old, (run cfg (init s f) ops).cur)]
@@ -103,33 +113,74 @@ theorem C03_listeners_told_the_transitions (cfg : Cfg) (hm : cfg.mode = .current
     ((run cfg (init s f) ops).holder = none →
       told li (run cfg (init s f) ops) = transitions (run cfg (init s f) ops)) := by
   have hinv := run_inv C03_table_edges cfg s hm ops _ (init_inv cfg s f)
-  generalize run cfg (init s f) ops = x at hinv
+  generalize run cfg (init s f) ops = x at hinv hc
   rw [told_eq, transitions_eq]
   refine ⟨?_, ?_⟩
   · cases hh : x.holder with
-    | none => exact Or.inl (by rw [hinv.quiet_of_free hh li hli])
+    | none => exact Or.inl (by rw [hinv.quiet_of_free hh hc li hli])
     | some p =>
       cases hn : p.notified with
       | false =>
         refine Or.inl ?_
-        rw [hinv.quiet (by intro q hq; rw [hh] at hq; cases hq; exact hn) li hli]
+        rw [hinv.quiet hc (by intro q hq; rw [hh] at hq; cases hq; exact hn) li hli]
       | true =>
-        obtain ⟨_, _, hle, hgt⟩ := hinv.telling p hh hn
+        obtain ⟨_, _, _, hcond⟩ := hinv.telling p hh hn
+        obtain ⟨hle, hgt⟩ := hcond hc
         by_cases hpos : li ≤ p.pos
         · exact Or.inl (by rw [hle li hpos])
         · refine Or.inr ⟨p, rfl, hn, by omega, ?_⟩
           rw [hgt li (by omega) hli, List.reverse_cons]
   · intro hh
-    rw [hinv.quiet_of_free hh li hli]
+    rw [hinv.quiet_of_free hh hc li hli]
+
+/-- Only the cancellation of a caller can cut a listener loop short: an op list without `cancelCaller`
+(any calls, overlaps, slow steps, reloads) has `cuts = 0`. -/
+theorem C03_cuts_only_by_cancel (cfg : Cfg) (s : St) (f : Fields) (ops : List XOp)
+    (h : ops.all (fun o => !o.isCancel) = true) : (run cfg (init s f) ops).cuts = 0 := by
+  rw [run_cuts_of_no_cancel cfg ops h]; rfl
+
+/-- The round-3 statement verbatim, for every op list in which no caller gives up (calls, created and
+started coroutines, manager and peer requests, overlaps, slow steps in any order, reloads). -/
+theorem C03_listeners_told_when_nobody_gives_up (cfg : Cfg) (hm : cfg.mode = .current) (s : St)
+    (f : Fields) (ops : List XOp) (li : Nat) (hli : li < cfg.listeners.length)
+    (h : ops.all (fun o => !o.isCancel) = true) :
+    (told li (run cfg (init s f) ops) = transitions (run cfg (init s f) ops) ∨
+      ∃ p, (run cfg (init s f) ops).holder = some p ∧ p.notified = true ∧ p.pos < li ∧
+        told li (run cfg (init s f) ops) ++ [(p.old, (run cfg (init s f) ops).cur)]
+          = transitions (run cfg (init s f) ops)) ∧
+    ((run cfg (init s f) ops).holder = none →
+      told li (run cfg (init s f) ops) = transitions (run cfg (init s f) ops)) :=
+  C03_listeners_told_the_transitions cfg hm s f ops li hli (C03_cuts_only_by_cancel cfg s f ops h)
+
+/-- **Every listener, all op lists, cancellations included, no hypothesis:** what listener `li` has been
+given is a *subsequence* of the state changes the transfer made, in order — it is never told a change that
+did not happen, never in another order, never twice; all it can lose is a change whose announcement was cut
+short by the cancellation of the announcing caller. Since the state changes form a walk along documented
+edges (`C03_transitions_walk`), what lies between two pairs a listener was given is again such a walk. -/
+theorem C03_listener_told_subsequence (cfg : Cfg) (hm : cfg.mode = .current) (s : St) (f : Fields)
+    (ops : List XOp) (li : Nat) :
+    (told li (run cfg (init s f) ops)).Sublist (transitions (run cfg (init s f) ops)) := by
+  have hinv := run_inv C03_table_edges cfg s hm ops _ (init_inv cfg s f)
+  rw [told_eq, transitions_eq]
+  exact (hinv.sub li).reverse
+
+/-- …and the listener registered first — `TransferManager.add` puts the manager itself there
+(manager.py:342) — is told every state change at the moment it is made, whatever is cancelled. -/
+theorem C03_first_listener_told_everything (cfg : Cfg) (hm : cfg.mode = .current) (s : St) (f : Fields)
+    (ops : List XOp) (h0 : 0 < cfg.listeners.length) :
+    told 0 (run cfg (init s f) ops) = transitions (run cfg (init s f) ops) := by
+  have hinv := run_inv C03_table_edges cfg s hm ops _ (init_inv cfg s f)
+  rw [told_eq, transitions_eq, hinv.first h0]
 
 /-- …hence what any one listener is given is itself a walk from the state the run started in: each
 pair starts where the previous one ended (and each is an edge, `C03_concurrent`), and when the lock
-is free the walk ends in the current state. -/
+is free the walk ends in the current state. (`cuts = 0`: see `C03_listeners_told_the_transitions`.) -/
 theorem C03_each_listener_walk (cfg : Cfg) (hm : cfg.mode = .current) (s : St) (f : Fields)
-    (ops : List XOp) (li : Nat) (hli : li < cfg.listeners.length) :
+    (ops : List XOp) (li : Nat) (hli : li < cfg.listeners.length)
+    (hc : (run cfg (init s f) ops).cuts = 0) :
     ∃ e, follows s (told li (run cfg (init s f) ops)) = some e ∧
       ((run cfg (init s f) ops).holder = none → e = (run cfg (init s f) ops).cur) := by
-  obtain ⟨h1, h2⟩ := C03_listeners_told_the_transitions cfg hm s f ops li hli
+  obtain ⟨h1, h2⟩ := C03_listeners_told_the_transitions cfg hm s f ops li hli hc
   have hw := (C03_transitions_walk cfg hm s f ops).1
   generalize run cfg (init s f) ops = x at h1 h2 hw
   rcases h1 with h | ⟨p, hp, _, _, h⟩
@@ -148,17 +199,136 @@ theorem C03_pending_is_edge (cfg : Cfg) (hm : cfg.mode = .current) (s : St) (f :
   (run_inv C03_table_edges cfg s hm ops _ (init_inv cfg s f)).pending p h hn
 
 /-- **Refused ⇒ no effect, all op lists.** The trace of who-did-what is a sequence of blocks, each
-either a lone `ret id false` or the effects of a single call followed by its one state change, the
-listener events of that change and `ret id true` (`Shape`, `Proofs/Transfer.lean`); hence invocations never interleave under the lock, and a refused call has
-done nothing: what precedes its `ret id false` in the trace is the return of an earlier call (or
-the beginning), never an effect or an event. -/
+either a lone `ret id false`, or the effects of a single call followed by its one state change, the
+listener events of that change and `ret id true`, or such a block cut short by `cancelled id` when the
+caller of the lock holder was cancelled (`Shape`, `Proofs/Transfer.lean`; a `cancelled id` of a caller that
+was still waiting for the lock belongs to no block); hence invocations never interleave under the lock — a
+cancelled one included: nothing of it follows its `cancelled` — and a refused call has done nothing: what
+precedes its `ret id false` in the trace is the return or the cancellation of another call (or the
+beginning), never an effect or an event. -/
 theorem C03_refused_no_effect (cfg : Cfg) (hm : cfg.mode = .current) (s : St) (f : Fields)
     (ops : List XOp) :
     Shape (phaseOf (run cfg (init s f) ops).holder) (run cfg (init s f) ops).trace ∧
     ∀ pre id rest, (run cfg (init s f) ops).trace = pre ++ .ret id false :: rest →
-      rest = [] ∨ ∃ id' ok rest', rest = .ret id' ok :: rest' := by
+      rest = [] ∨ (∃ id' ok rest', rest = .ret id' ok :: rest') ∨
+        (∃ id' rest', rest = .cancelled id' :: rest') := by
   have hinv := run_inv C03_table_edges cfg s hm ops _ (init_inv cfg s f)
   exact ⟨hinv.shape, hinv.shape.refusal_isolated⟩
+
+/-- **A request cancelled before it was served has no effect.** The caller of a request that still waits
+for the lock is cancelled: the state, every field, the lock holder, what listeners were told and the state
+changes are what they were; the request leaves the queue (if it was in it) and its caller is told. -/
+theorem C03_cancelled_waiter_no_effect (cfg : Cfg) (x : XState) (id : Nat) (p : Pending)
+    (hp : x.holder = some p) (hne : p.call.id ≠ id) :
+    (step cfg x (.cancelCaller id)).cur = x.cur ∧ (step cfg x (.cancelCaller id)).f = x.f ∧
+    (step cfg x (.cancelCaller id)).holder = x.holder ∧
+    (step cfg x (.cancelCaller id)).cuts = x.cuts ∧
+    ((step cfg x (.cancelCaller id)) = x ∨
+      ∃ ws, removeWaiter id x.waiters = some ws ∧
+        step cfg x (.cancelCaller id) = { x with waiters := ws, trace := .cancelled id :: x.trace }) := by
+  simp only [step]
+  split
+  · next hnone => rw [hp] at hnone; cases hnone
+  · next q hq =>
+    rw [hp] at hq
+    cases hq
+    rw [if_neg hne]
+    split
+    · next ws hws => exact ⟨rfl, rfl, rfl, rfl, Or.inr ⟨ws, hws, rfl⟩⟩
+    · exact ⟨rfl, rfl, rfl, rfl, Or.inl rfl⟩
+
+/-- **What remains of a request whose caller is gone: nothing.** The caller of the suspended lock holder
+is cancelled (`abandon`): the state is what it was, nobody is told anything, no state change is made, no
+field changes except that the tasks the request had cancelled are now known to have ended; and either the
+lock is released at once — the request is over, its block in the trace is closed by `cancelled`
+(`C03_refused_no_effect`: nothing of it follows) — or (`Cfg.stubborn`: it waits for tasks that take their
+time to end) it stays the lock holder, marked `abandoned`, so that nobody else is served meanwhile, and the
+next `resume` ends it the same way (`tasksEnded`). The transfer is left where it was: a `DOWNLOADING`
+transfer whose `abort()` was cancelled is `DOWNLOADING` with its tasks cancelled — no undocumented edge, and
+the next request is served on that state. -/
+theorem C03_cancelled_holder_does_nothing_more (cfg : Cfg) (p : Pending) (x : XState) :
+    (abandon cfg p x).cur = x.cur ∧ events (abandon cfg p x) = events x ∧
+    transitions (abandon cfg p x) = transitions x ∧ (abandon cfg p x).waiters = x.waiters ∧
+    { (abandon cfg p x).f with tasksLive := x.f.tasksLive } = x.f ∧
+    ((abandon cfg p x).holder = none ∨
+      (cfg.stubborn = true ∧ (abandon cfg p x).holder = some { p with abandoned := true } ∧
+        (abandon cfg p x).trace = x.trace ∧ (abandon cfg p x).f = x.f)) := by
+  unfold abandon
+  split
+  · exact ⟨rfl, by simp [events], by simp [transitions, Item.change], rfl, rfl, Or.inl rfl⟩
+  · split
+    · split
+      · next hs => exact ⟨rfl, rfl, rfl, rfl, rfl, Or.inr ⟨hs, rfl, rfl, rfl⟩⟩
+      · exact ⟨rfl, by simp [tasksEnded, events], by simp [tasksEnded, transitions, Item.change], rfl,
+          rfl, Or.inl rfl⟩
+    · exact ⟨rfl, by simp [events], by simp [transitions, Item.change], rfl, rfl, Or.inl rfl⟩
+
+/-- …and the abandoned lock holder, when its tasks have ended, ends likewise: state, listeners' records
+and state changes untouched, lock released (then handed to the oldest waiter by `step`). -/
+theorem C03_abandoned_holder_ends (p : Pending) (x : XState) :
+    (tasksEnded p x).cur = x.cur ∧ events (tasksEnded p x) = events x ∧
+    transitions (tasksEnded p x) = transitions x ∧ (tasksEnded p x).holder = none ∧
+    { (tasksEnded p x).f with tasksLive := x.f.tasksLive } = x.f := by
+  exact ⟨rfl, by simp [tasksEnded, events], by simp [tasksEnded, transitions, Item.change], rfl, rfl⟩
+
+/-- **Repair on load tells nobody.** What `Transfer.__setstate__` and `TransferManager.read_cache` do to
+a stored record happens before the first listener is registered: the loaded transfer starts with an empty
+record — no listener has been told anything, no request is in flight, the lock is free. In particular the
+`await transfer.state.queue()` that takes a stored `INITIALIZING` back to `QUEUED` runs on a transfer
+without listeners and tells nobody (second part: no `event` item in what that call leaves behind, whatever
+the table says `InitializingState.queue` does). -/
+theorem C03_load_tells_nobody (cfg : Cfg) (stored : St) (f : Fields) (whole : Bool) :
+    (load cfg stored f whole).trace = [] ∧ events (load cfg stored f whole) = [] ∧
+    (∀ li, told li (load cfg stored f whole) = []) ∧ (load cfg stored f whole).holder = none ∧
+    (load cfg stored f whole).waiters = [] ∧
+    ∀ (f1 : Fields) id li a b, Item.event id li a b ∉
+      (arrive { cfg with listeners := [] } { id := 0, meth := .queue, captured := .initializing }
+        (init .initializing f1)).trace := by
+  obtain ⟨s', f', h⟩ := load_is_init cfg stored f whole
+  rw [h]
+  exact ⟨rfl, rfl, fun _ => rfl, rfl, rfl,
+    fun f1 => noListeners_arrive_init { cfg with listeners := [] } rfl _ _ f1⟩
+
+/-- the state a loaded transfer is first seen in: a record stored while transferring is `COMPLETE` when
+all bytes are there and `INCOMPLETE` otherwise (assigned, not announced), everything that was neither
+transferring nor initializing is what was stored -/
+theorem C03_load_state (cfg : Cfg) (stored : St) (f : Fields) (whole : Bool) :
+    (stored = .downloading ∨ stored = .uploading →
+      (load cfg stored f whole).cur = if whole then .complete else .incomplete) ∧
+    (stored ≠ .downloading → stored ≠ .uploading → stored ≠ .initializing →
+      (load cfg stored f whole).cur = stored) := by
+  refine ⟨?_, ?_⟩
+  · rintro (h | h) <;> subst h <;> rfl
+  · intro h1 h2 h3
+    cases stored <;> first | rfl | contradiction
+
+/-- **…and from there on everything above holds**: whatever was stored, for all op lists on the loaded
+transfer every pair a listener is given is a documented edge, and the state changes form one walk along
+documented edges from the state the transfer was in when `TransferAddedEvent` was emitted. -/
+theorem C03_after_load (cfg : Cfg) (hm : cfg.mode = .current) (stored : St) (f : Fields) (whole : Bool)
+    (ops : List XOp) :
+    (∀ p ∈ events (run cfg (load cfg stored f whole) ops), edge cfg.dir p.1 p.2 = true) ∧
+    follows (load cfg stored f whole).cur (transitions (run cfg (load cfg stored f whole) ops))
+      = some (run cfg (load cfg stored f whole) ops).cur ∧
+    ∀ li, (told li (run cfg (load cfg stored f whole) ops)).Sublist
+      (transitions (run cfg (load cfg stored f whole) ops)) := by
+  obtain ⟨s', f', h⟩ := load_is_init cfg stored f whole
+  rw [h]
+  exact ⟨C03_concurrent cfg hm s' f' ops, (C03_transitions_walk cfg hm s' f' ops).1,
+    fun li => C03_listener_told_subsequence cfg hm s' f' ops li⟩
+
+/-- reading the cache again while the manager already holds the transfer (stop / start of a client)
+leaves the live transfer alone: the repaired copy is dropped by `TransferManager.add` -/
+theorem C03_reload_no_effect (cfg : Cfg) (x : XState) : step cfg x .reload = x := rfl
+
+/-- The places **outside the state classes** where a transfer's state is written, read off the source
+on every run (`Generated.outsideSites`: per file, direct assignments to a `.state` attribute and calls of
+`.transition(`; `transfer/state.py` itself excluded): the constructor and `Transfer.transition` in
+`transfer/model.py`, and the one repair assignment of `read_cache` — which `load` transcribes. A new site
+is a state change this model does not know of. -/
+theorem C03_outside_sites_pinned :
+    outsideSites = [("transfer/manager.py", "assign", 1), ("transfer/model.py", "assign", 2)] := by
+  decide
 
 /-- The wrapper of the pinned commit runs the method of the state object the caller looked up
 *before* waiting for the lock. `DOWNLOADING`, a slow task cancellation, `abort` then `pause` while
@@ -218,6 +388,61 @@ example :
        y.cur = .queued ∧ y.holder = none ∧ transitions y = [(.downloading, .aborted), (.aborted, .queued)] ∧
        told 0 y = transitions y ∧ told 1 y = transitions y ∧ told 2 y = transitions y ∧
        follows .downloading (told 2 y) = some .queued) := by decide
+
+/-- the caller of `abort()` gives up (time-out) while abort waits for the tasks it cancelled: the request
+is over, the download is still `DOWNLOADING` (tasks gone), nobody was told anything; the peer's
+queue-failed message then fails it along a documented edge, and nothing else ever happens. -/
+example :
+    let cfg : Cfg := { dir := .download, slowCancel := true, slowFs := false, listeners := [false, false] }
+    let x := run cfg (init .downloading { tasksLive := true, startTime := some 0, localPath := true, fileExists := true })
+      [.call { id := 0, meth := .abort, reason := some 1 }, .cancelCaller 0]
+    x.cur = .downloading ∧ x.holder = none ∧ events x = [] ∧ x.f.tasksLive = false ∧ x.f.fileExists = true ∧
+      x.trace.head? = some (.cancelled 0) ∧
+      (let y := run cfg x [.call { id := 1, meth := .fail, reason := some 2 }, .resume, .resume]
+       y.cur = .failed ∧ transitions y = [(.downloading, .failed)] ∧ y.f.fileExists = true ∧
+       y.f.abortReason = none) := by decide
+
+/-- the same with tasks that take their time to end whatever is cancelled again: the cancelled abort keeps
+the lock (`abandoned`), the peer's message waits, and is served — on `DOWNLOADING` — once the tasks have ended -/
+example :
+    let cfg : Cfg := { dir := .download, slowCancel := true, slowFs := false, stubborn := true }
+    let x := run cfg (init .downloading { tasksLive := true, startTime := some 0 })
+      [.call { id := 0, meth := .abort, reason := some 1 }, .cancelCaller 0,
+       .call { id := 1, meth := .fail, reason := some 2 }]
+    x.cur = .downloading ∧ (x.holder.map (·.abandoned)) = some true ∧ x.waiters.length = 1 ∧
+      (let y := run cfg x [.resume]
+       y.cur = .failed ∧ y.holder = none ∧ events y = [(.downloading, .failed)]) := by decide
+
+/-- a caller still waiting for the lock is cancelled: it never runs -/
+example :
+    let cfg : Cfg := { dir := .download, slowCancel := true, slowFs := false }
+    let x := run cfg (init .downloading { tasksLive := true, startTime := some 0 })
+      [.call { id := 0, meth := .pause }, .call { id := 1, meth := .abort, reason := some 1 },
+       .cancelCaller 1, .resume]
+    x.cur = .paused ∧ x.holder = none ∧ x.waiters = [] ∧ events x = [(.downloading, .paused)] ∧
+      x.f.abortReason = none := by decide
+
+/-- The hypothesis `cuts = 0` of `C03_listeners_told_the_transitions` is needed: a caller cancelled while it
+is suspended inside the *second* of three listeners leaves the third without that change — on the real
+code as in the model (the loop of `Transfer.transition` is simply left). The third listener's record is
+still a subsequence of the state changes (`C03_listener_told_subsequence`), the first one's is complete. -/
+theorem C03_cut_listener_counterexample :
+    let cfg : Cfg := { dir := .download, slowCancel := false, slowFs := false, listeners := [false, true, false] }
+    let x := run cfg (init .downloading { startTime := some 0 })
+      [.call { id := 0, meth := .pause }, .cancelCaller 0, .call { id := 1, meth := .queue }, .resume]
+    x.cuts = 1 ∧ x.holder = none ∧
+      transitions x = [(.downloading, .paused), (.paused, .queued)] ∧ told 0 x = transitions x ∧
+      told 1 x = transitions x ∧ told 2 x = [(.paused, .queued)] := by decide
+
+/-- a record stored as `UPLOADING` with bytes missing is first seen as `INCOMPLETE`, one stored as
+`INITIALIZING` as `QUEUED`, an `ABORTED` one of an older release gets its reason — and nobody is told -/
+example :
+    let cfg : Cfg := { dir := .upload, slowCancel := false, slowFs := false, listeners := [false, true] }
+    (load cfg .uploading { startTime := some 0, bytes := 10, filesizeSet := true, tasksLive := true } false).cur = .incomplete ∧
+    (load cfg .uploading { startTime := some 0 } false).f.startTime = none ∧
+    (load cfg .initializing { remotelyQueued := true } false).cur = .queued ∧
+    (load cfg .aborted {} false).f.abortReason = some requestedReason ∧
+    events (load cfg .uploading {} true) = [] := by decide
 
 /-- the graph and the table are not trivial: 32 documented pairs, 31 overridden methods -/
 example : edgeCount = 32 ∧ overriddenCount = 31 := by decide
